@@ -314,6 +314,39 @@ fn recover_and_check_inner(store_dir: &Path, acks: &[Value], soft: &mut Vec<(Str
         }
     }
     drop(store);
+    // (7) the same differential once more, after the restarted authority has appended: an append
+    // onto a recovered (dropped / partly missing) cache family must not leave a partial member
+    // that is then served.
+    {
+        let rt = crate::fixture::new_rt();
+        let mk = |with_caches: bool| {
+            let copy = scratch_dir("c05d");
+            let cdata = copy.path().join("data");
+            let croot = copy.path().join("ws");
+            let _ = crate::common::copy_dir(&data, &cdata);
+            let _ = crate::common::copy_dir(&root, &croot);
+            if !with_caches {
+                let _ = std::fs::remove_dir_all(cdata.join("continuity_streams"));
+            }
+            crate::fixture::Fx::open(copy, cdata, croot, rt.clone())
+        };
+        let found_fx = mk(true);
+        let truth_fx = mk(false);
+        for t in &threads {
+            let found = crate::c04::all_answers(&found_fx, t, true, 4);
+            let truth = crate::c04::all_answers(&truth_fx, t, true, 4);
+            for ((name, a), (_, b)) in found.iter().zip(truth.iter()) {
+                if a != b {
+                    let q = name.split('(').next().unwrap_or(name);
+                    soft.push((
+                        format!("recovered_then_appended_cache_not_transparent:{q}"),
+                        format!("{name} after restart + one append (caches as left by the restarted authority) = {} ; with the caches removed = {}", crate::common::compact(a, 300), crate::common::compact(b, 300)),
+                    ));
+                    break;
+                }
+            }
+        }
+    }
     let log3 = EventLog::new(&log_path).map_err(|e| ("open_log".to_string(), e.to_string()))?;
     match log3.replay_validated() {
         Ok(all) => {
